@@ -66,6 +66,12 @@ WITNESSES = [
     ("F9", "tidy", 'r"""raw"""\n"""# not a comment\n"""\nx = 1\n'),
     ("F39c", "tidy", '"""doc"""; x = 1'),
     ("F39d", "tidy", '# c\n"""doc"""; import sys\nprint(sys)\n'),
+    ("bytes1", "tidy", '#; import os\nb"it\'s"\n'),
+    ("bytes2", "tidy", '"""doc"""\nb"x"\ny = 1\n'),
+    ("bytes3", "tidy", 'b"x"\n"""doc"""\ny = 1\n'),
+    ("bytes4", "tidy", "# c\nb'x' b'y'"),
+    ("fstr1", "tidy", "# c\nf'{x}'\n'doc'\n"),
+    ("concat1", "tidy", "'a' \"b\"\n'second'\ny = 1\n"),
     ("nested", "reformat", "if x:\n    import b, a\nimport d, c  # gone\n# kept\nimport e\n"),
 ]
 
@@ -86,7 +92,7 @@ def gen_cases(ctx, n, ncorpus=0):
                 cases.append({"kind": "corpus", "path": path, "tool": "reformat", "src": src, "sp": [1, 1], "params": {}, "db": 0,
                               "flags": [True, True, True]})
     for tag, tool, src in WITNESSES:
-        cases.append({"kind": "witness", "tag": tag, "tool": tool, "src": src, "sp": [1, 1], "params": {}, "db": 3 if tag.startswith("doc") or tag in ("top", "comment_only_first", "F39", "F39b", "F39c", "F39d", "F9", "deco") else 0,
+        cases.append({"kind": "witness", "tag": tag, "tool": tool, "src": src, "sp": [1, 1], "params": {}, "db": 2 if tag in ("bytes1", "bytes2", "bytes3", "fstr1") else 3 if tag.startswith("doc") or tag in ("top", "comment_only_first", "F39", "F39b", "F39c", "F39d", "F9", "deco", "bytes4", "concat1") else 0,
                       "flags": [True, True, True]})
     i = 0
     ntotal = len(cases) + n + len(WITNESSES)
@@ -234,7 +240,7 @@ def run_cli(tool, src):
 # ---------------------------------------------------------------------------------------------
 # model side
 
-KCODE = {"Import": 0, "StrExpr": 1, "Other": 2}
+KCODE = {"Import": 0, "StrExpr": 1, "Other": 2, "BytesExpr": 3}
 
 
 def pass_expr(p):
@@ -307,8 +313,9 @@ def remainder(text, extents):
 
 def prologue_end(text, extents):
     """offset, in remainder coordinates, of the end of the prologue: leading comments, blank lines
-    and at most one string literal statement (the docstring) - i.e. the start of the first
-    top-level statement that is not the first leading string statement; the end of the text if
+    and at most one str literal statement (the docstring; a bytes literal or an f-string is not
+    one) - i.e. the start of the first top-level statement that is not the first leading str
+    literal statement; the end of the text if
     there is none.  Statement starts come from the independent node oracle ("@" of a decorated
     definition)."""
     offs = char_offsets(text)
